@@ -30,17 +30,17 @@ REPAIR = os.path.join(vlib.VERIF, "known_patches", "c16-backsubstitution.diff")
 EXPLAINED = set()
 
 
-def attribute(ctx, lines):
+def attribute(ctx, lines, api="equimod", badcodes=(82, 83)):
     """run the stream once, re-run the rejected cases on the repaired build, remember those that pass there"""
     exe = ctx.drive("rel")
-    recs, _ = vlib.run_drive(exe, "equimod", lines)
-    codes = vlib.run_judge("equimod", recs)
-    bad = [l for l, r, c in zip(lines, recs, codes) if r is not None and c in (82, 83)]
+    recs, _ = vlib.run_drive(exe, api, lines)
+    codes = vlib.run_judge(api, recs)
+    bad = [l for l, r, c in zip(lines, recs, codes) if r is not None and c in badcodes]
     if not bad:
         return
     fixed = vlib.build_drive("rel", tag="c16repair", repair=REPAIR)
-    recs2, _ = vlib.run_drive(fixed, "equimod", bad)
-    codes2 = vlib.run_judge("equimod", recs2)
+    recs2, _ = vlib.run_drive(fixed, api, bad)
+    codes2 = vlib.run_judge(api, recs2)
     for l, r, c in zip(bad, recs2, codes2):
         if r is not None and c == 0:
             EXPLAINED.add(l)
@@ -49,7 +49,7 @@ def attribute(ctx, lines):
 
 
 def keyfn(line, code):
-    if code in (82, 83) and line in EXPLAINED:
+    if code in (82, 83, 452, 453) and line in EXPLAINED:
         return "back-substitution"
     return line
 
@@ -64,6 +64,12 @@ def lines_for(M, m, n, rng, ks=(0,)):
 
 
 def run(ctx):
+    import gen as _gen
+    cert = _gen.equi_cert_lines(ctx.rng.fork("equi_cert"), 1500 if ctx.quick else 40000, 10 if ctx.quick else 14)
+    attribute(ctx, cert, "equi_cert", (452, 453))
+    ctx.stream("equi_cert", cert, "equimodular / unimodular tests on certified matrices L*X of every size (|det L| from the row "
+               "operations, X a network matrix with identity columns; value unique: EquiUnique.v)",
+               describe=lambda c: _gen.EQUI_CERT_CODES.get(c, str(c)), nontrivial=lambda l, r: True, keyfn=keyfn)
     q = ctx.quick
     rng = ctx.rng.fork("equimod")
     lines = []
